@@ -224,7 +224,7 @@ TRUSTED_BASE = [
  "Coq 8.16.1 kernel incl. vm_compute (no native_compute); coqchk re-check in the thorough tier",
  "axioms: none (Print Assumptions under every property theorem must say: Closed under the global context)",
  "extraction with ExtrOcamlBasic only (bool, option, unit, list, prod, sumbool, sumor; andb/orb inlined); OCaml 4.13.1",
- "tools/translate.py + translate_meta.py + translate_estimate.py (constants, header texts, the section layouts of meta.rs and the line estimate of estimate.rs regenerated / translated from /repo/src each run; the accepted subset of Rust is listed in DESIGN.md section 5)",
+ "tools/translate.py + translate_meta.py + translate_estimate.py + translate_seek.py (constants, header texts, the section layouts of meta.rs, the line estimate of estimate.rs and the bound arithmetic of seek.rs regenerated / translated from /repo/src each run; the accepted subset of Rust is listed in DESIGN.md section 5)",
  "extract/driver.ml (script parsing, printing, byte table self-tested against Byte.to_N, FNV hashing, file comparison)",
  "harness/src/main.rs (bsdrive: script interpreter over the public API, error-class mapping, snapshots, watchdog)",
  "bsv + tools/gen.py + tools/plans.py (generation, sharding, diff, attribution of failures to properties)",
